@@ -143,10 +143,27 @@ def regression_replays(prop):
     return [(p, v) for p, v, _ in out if v is not None], len(paths)
 
 
+def _sweep_stale_scratch():
+    """Remove scratch directories left behind by worker processes that no longer exist."""
+    import glob
+    import shutil
+
+    from . import env
+
+    for d in glob.glob(os.path.join(env.SCRATCH_ROOT, "funtracks-dst-*")) + glob.glob(os.path.join(env.SCRATCH_ROOT, "funtracks-mutant-*")):
+        try:
+            pid = int(os.path.basename(d).split("-")[2])
+        except (IndexError, ValueError):
+            continue
+        if not os.path.exists(f"/proc/{pid}"):
+            shutil.rmtree(d, ignore_errors=True)
+
+
 def cmd_check(prop, tier):
     from . import batch, env, runner, shrink
 
     env.boot()
+    _sweep_stale_scratch()
     seed = int(os.environ.get("VERIF_SEED", "1"))
     jobs = int(os.environ.get("VERIF_JOBS", str(os.cpu_count() or 4)))
     if prop not in batch.QUICK_RUNS:
